@@ -6,6 +6,7 @@ import (
 	"encoding/json"
 	"fmt"
 	"sort"
+	"sync/atomic"
 
 	"github.com/Tom-Johnston/mamba/graph"
 	"github.com/Tom-Johnston/mamba/sortints"
@@ -900,7 +901,14 @@ func runC06(c *Ctx) {
 			}
 		}
 	}
-	for n := 0; n <= 4; n++ {
+	ndN, prN, vhN := 4, 6, 4
+	if c.Thorough() {
+		ndN, prN, vhN = 5, 8, 5
+	}
+	c.Bound("newdense_all_byte_slices_n", ndN)
+	c.Bound("prufer_all_codes_n", prN)
+	c.Bound("view_histories_n", vhN)
+	for n := 0; n <= ndN; n++ {
 		total := uint64(1)
 		for i := 0; i < edgeCount(n); i++ {
 			total *= 3
@@ -909,7 +917,7 @@ func runC06(c *Ctx) {
 			tcases = append(tcases, consCase{Fn: "NewDense", N: n, Mask: x})
 		}
 	}
-	for n := 2; n <= 6; n++ {
+	for n := 2; n <= prN; n++ {
 		total := 1
 		for i := 0; i < n-2; i++ {
 			total *= n
@@ -944,9 +952,74 @@ func runC06(c *Ctx) {
 			}
 		}
 	})
+	if c.Thorough() {
+		// thorough: the same on every labelled graph with 6 vertices, generated inside the workers (the case list
+		// would not fit in memory): all transformations, every pair for SplitEdge/Contract, every one of the 1957 vertex
+		// sequences for the view, all decoder outputs
+		n := 6
+		var all [][]int
+		var seq []int
+		used := make([]bool, n)
+		var rec func()
+		rec = func() {
+			all = append(all, append([]int{}, seq...))
+			for v := 0; v < n; v++ {
+				if !used[v] {
+					used[v] = true
+					seq = append(seq, v)
+					rec()
+					seq = seq[:len(seq)-1]
+					used[v] = false
+				}
+			}
+		}
+		rec()
+		var n6 int64
+		c.parFor(1<<uint(edgeCount(n)), 16, func(lo, hi int64) {
+			cnt := int64(0)
+			run := func(cc consCase) {
+				cnt++
+				switch cc.Fn {
+				case "NewSparse":
+					c.Check(func() *Failure { return evalNewSparse(cc) })
+				case "Graph6Decode", "Sparse6Decode", "MulticodeDecode":
+					c.Check(func() *Failure { return evalDecoderOutput(cc) })
+				default:
+					c.Check(func() *Failure { return evalTransform(cc) })
+				}
+			}
+			for mm := lo; mm < hi; mm++ {
+				m := uint64(mm)
+				for _, rep := range []string{"dense", "sparse"} {
+					for _, fn := range []string{"ComplementDense", "Complement", "LineGraphDense"} {
+						run(consCase{Fn: fn, N: n, Mask: m, Rep: rep})
+					}
+					for _, sq := range all {
+						run(consCase{Fn: "InducedSubgraphView", N: n, Mask: m, Rep: rep, V: sq})
+					}
+					for i := 0; i < n; i++ {
+						for j := 0; j < n; j++ {
+							run(consCase{Fn: "SplitEdge", N: n, Mask: m, Rep: rep, V: []int{i, j}})
+							run(consCase{Fn: "Contract", N: n, Mask: m, Rep: rep, V: []int{i, j}})
+						}
+					}
+				}
+				for _, fn := range []string{"Graph6Decode", "Sparse6Decode", "MulticodeDecode"} {
+					run(consCase{Fn: fn, N: n, Mask: m})
+				}
+				for v := 0; v < 4; v++ {
+					run(consCase{Fn: "NewSparse", N: n, Mask: m, V: []int{v}})
+				}
+			}
+			c.Nontrivial(cnt)
+			atomic.AddInt64(&n6, cnt)
+		})
+		c.SetCount("cases_on_all_graphs_with_6_vertices", n6)
+		c.Rule += "; THOROUGH: additionally every labelled graph with 6 vertices (transformations, every pair for SplitEdge/Contract, all 1957 view sequences, decoder outputs), NewDense byte slices for n=5, Pruefer codes for n<=8, view histories for n=5"
+	}
 	// views stay live: query, edit the underlying graph, query again
 	var vcs []viewCase
-	for n := 2; n <= 4; n++ {
+	for n := 2; n <= vhN; n++ {
 		vcs = append(vcs, viewHistoryCases(n, "observers")...)
 	}
 	c.parFor(int64(len(vcs)), 64, func(lo, hi int64) {
